@@ -227,7 +227,11 @@ class Register:
         if step == 0:
             raise JaqalError(f"Step of map {self.name} cannot be zero.")
 
-        return len(range(start, stop, step))
+        try:
+            return len(range(start, stop, step))
+        except OverflowError:
+            # Bounds too large for a C integer cannot fit any register
+            raise JaqalError("Index out of range.") from None
 
     def resolve_qubit(self, idx, context=None):
         """
